@@ -126,6 +126,7 @@ func (h *harness) writeOne(ds dataset, ch choices, cfeat map[string]bool, mutate
 	}
 	line := fmt.Sprintf("jl.write %s %s %s %s %s", modeTok(ch.mode11), baseTok(ch.base), ch.wire(), cj, gquadsWire(ds.quads))
 	want, _ := gquadsRDF(ds.quads)
+	h.stable(line)
 	h.add(line, func(model string) {
 		desc := fmt.Sprintf("write %s dataset=%s", ch, showQuads(want))
 		h.rep.Count("op:write")
